@@ -105,6 +105,8 @@ class Result:
         re-evaluate them on this tree and fail here too when one of them fails (other than a listed known
         finding of that property, which is reported there)."""
         import inventory
+        if self.tier == "premise":
+            return          # this module is itself being evaluated as somebody's premise: no nested premises (no cycles)
         bad = inventory.premise_failures(prog, self.pid, specs)
         for k in bad:
             self.ob(rule, k, False, "", f"premise of {self.pid} violated ({why})")
@@ -126,7 +128,23 @@ def load_known():
     return json.load(open(p))
 
 
+def rule_instance_floors(res):
+    """A rule that lost most of its instances (renamed anchor, changed idiom, helper that no longer recognises the
+    code) would pass vacuously: compare the per-rule instance counts with the frozen floors."""
+    p = os.path.join(VERIF, "spec", "rule_floors.json")
+    if not os.path.exists(p) or any(o["rule"] == "AI-BUDGET" for o in res.obls):
+        return
+    floors = json.load(open(p)).get(res.pid, {})
+    have = {}
+    for o in res.obls:
+        have[o["rule"]] = have.get(o["rule"], 0) + 1
+    for r, fl in sorted(floors.items()):
+        n = have.get(r, 0)
+        res.ob("RULE-INSTANCES", r, n >= fl, "", f"rule {r}: {n} instances evaluated on this tree, frozen floor {fl}" + ("" if n >= fl else ": the rule no longer finds the constructs it was written for (anchor renamed / idiom changed); its verdict would be vacuous"))
+
+
 def finish(res, t0, th, cache_hit, prog_stats, seed):
+    rule_instance_floors(res)
     known = [k for k in load_known() if k.get("property") == res.pid and k.get("status") == "known"]
     known_keys = {k["key"]: k for k in known}
     viol = []
@@ -200,8 +218,9 @@ def finish(res, t0, th, cache_hit, prog_stats, seed):
         "wall_s": round(time.time() - t0, 3),
         "violations": len(viol),
     }
-    os.makedirs(os.path.join(VERIF, "evidence"), exist_ok=True)
-    with open(os.path.join(VERIF, "evidence", res.pid + ".json"), "w") as f:
+    evdir = os.path.join(VERIF, "evidence") if os.path.realpath(REPO) == "/repo" else os.path.join(VERIF, "out", "variant_evidence")   # runs on a scratch variant never touch the evidence of /repo
+    os.makedirs(evdir, exist_ok=True)
+    with open(os.path.join(evdir, res.pid + ".json"), "w") as f:
         json.dump(ev, f, indent=1, sort_keys=False)
     print(f"[{res.pid}] obligations={n_ob} discharged={n_dis} reviewed={n_rev} known_findings={len(seen_kf)} violations={len(viol)} wall={ev['wall_s']}s")
     return 1 if viol else 0
@@ -222,8 +241,9 @@ def fail_no_facts(pid, tier, t0, th, err, seed):
     ev = {"property_id": pid, "tier": tier, "seed": seed, "level": "other",
           "coverage": {"explanation": "fact extraction failed; no obligation evaluated", "obligations": 0, "discharged": 0, "evaluations": 0, "distinct_nontrivial": 0, "samples": [{"error": (err or "")[-500:]}]},
           "assumptions": [], "wall_s": round(time.time() - t0, 3), "violations": 1}
-    os.makedirs(os.path.join(VERIF, "evidence"), exist_ok=True)
-    with open(os.path.join(VERIF, "evidence", pid + ".json"), "w") as f:
+    evdir = os.path.join(VERIF, "evidence") if os.path.realpath(REPO) == "/repo" else os.path.join(VERIF, "out", "variant_evidence")
+    os.makedirs(evdir, exist_ok=True)
+    with open(os.path.join(evdir, pid + ".json"), "w") as f:
         json.dump(ev, f, indent=1)
     return 1
 
